@@ -65,6 +65,17 @@ func runStop(p stParams) func(rc *core.RunCtx) {
 			maxDepth = g.Range(0, 1)
 		}
 		root, all, parentOf := genTree(g, maxDepth)
+		if p.focus == "C08" {
+			// children that die at birth: the receiver panics in Started with no
+			// restart budget, so the child lives and dies inside SpawnChild
+			for _, sp := range all {
+				if sp != root && len(sp.Children) == 0 && g.Bool(0.1) {
+					sp.MaxRestarts = 0
+					sp.PanicStarted[0] = true
+					sp.NMiddleware = 0
+				}
+			}
+		}
 		ids := []string{}
 		for _, sp := range all {
 			ids = append(ids, sp.FullID())
@@ -281,6 +292,9 @@ func treeStr(sp *Spec) string {
 	s := fmt.Sprintf("%s[r=%d,in=%d]", sp.FullID(), sp.MaxRestarts, sp.InboxSize)
 	if sp.UserCtx {
 		s = fmt.Sprintf("%s[r=%d,in=%d,ctx]", sp.FullID(), sp.MaxRestarts, sp.InboxSize)
+	}
+	if sp.PanicStarted[0] {
+		s += "{dies-at-birth}"
 	}
 	if len(sp.Children) > 0 {
 		var cs []string
